@@ -9,7 +9,7 @@ PROP = dict(
                  parts=["ref-vectors", "suites", "ku-derive", "retry-tag",
                         "keyupdate-v1", "keyupdate-v1-i2", "keyupdate-v1-chacha", "keyupdate-v2"]),
             dict(name="quic", pkg=".", test="TestVerifC05Quic", files=["mc/c05/root/*.go"],
-                 parts=["initial", "short", "tamper"]),
+                 parts=["initial", "levels", "tamper"]),
             dict(name="ack", pkg="internal/ackhandler", test="TestVerifC05Ack", files=["mc/c05/ack/*.go"],
                  parts=["pn-codec", "pngen", "sph-pn", "sph-pn-server", "sph-pn-edge", "sph-pn-uquic"]),
         ],
